@@ -242,7 +242,7 @@ def generate(rng, opts):
         "reuse_loader": rng.random() < 0.3,
         # search-path directories are named by the user: one name may be a string prefix of another, or hold a space
         "sp_names": rng.sample(["lib", "lib2", "src", "src-extra", "sp1", "sp10", "site packages", "x"], 3) if rng.random() < 0.5 else None,
-        "other_top": rng.choice(TOP_NAMES + ["nothing_here"]),
+        "other_top": rng.choice(TOP_NAMES + ["nothing_here", "<same>", "<same>"]),
         "sp_order": sp_order,
         "world": {"dirs": dirs, "n_listed": n_listed},
         "target": target,
@@ -543,6 +543,10 @@ def execute(plan, ctx):
                             loader = griffe.GriffeLoader(search_paths=sps, allow_inspection=plan["inspection"])
                             try:
                                 other = plan.get("other_top", "nothing_here")
+                                if other == "<same>":
+                                    # the same package was requested before, without its sub-modules
+                                    loader.load(spec, try_relative_path=form in ("strpath", "relstr"), submodules=False, find_stubs_package=bool(plan["cfg"].get("stubs_pkg")))
+                                    other = "nothing_here"
                                 cand_other = [os.path.join(sp, other) for sp in sps if os.path.isdir(os.path.join(sp, other))]
                                 loader.load(Path(cand_other[0]) if cand_other and form != "name" else other, try_relative_path=form in ("strpath", "relstr"))
                             except (ImportError, griffe.LoadingError):
